@@ -7,11 +7,15 @@ package harness
 import (
 	"encoding/json"
 	"fmt"
+	"hash/adler32"
+	"hash/crc32"
+	"hash/fnv"
 	"math"
 	mrand "math/rand"
 	"os"
 	"os/exec"
 	"path/filepath"
+	"strconv"
 	"strings"
 	"testing"
 
@@ -550,4 +554,167 @@ func describeElement(el *ysgo.DialogueElement) string {
 		return fmt.Sprintf("the line %q", el.Line.Text)
 	}
 	return fmt.Sprintf("%d options", len(el.Options))
+}
+
+// ---------------------------------------------------------------------------------------
+// one rule for arguments that are not whole: how dice and random_range read them is not stated (the library truncates),
+// but it is one rule - the same for 1.5 as for a value a few ulps below 2. With tiny ranges 40 draws show the rule.
+
+type c09RuleCase struct {
+	Seed string `json:"seed"`
+}
+
+func runC09Rule(c c09RuleCase) Verdict {
+	args := []float64{1.9999999999999998, 1.5, 1.0000000000000002, 1.25, 1.9999999995, 1.75}
+	var b strings.Builder
+	b.WriteString("title: Start\n---\n")
+	for range 40 {
+		for i := range args {
+			fmt.Fprintf(&b, "{cap(\"dice%d\", dice($a%d))}{cap(\"range%d\", random_range(1, $a%d))}", i, i, i, i)
+		}
+		b.WriteString("\n")
+	}
+	b.WriteString("===\n")
+	storer := variable.NewInMemoryStorer()
+	for i, a := range args {
+		storer.SetNumberValue(fmt.Sprintf("a%d", i), a)
+	}
+	dr, err := ysgo.NewDialogueRunner(storer, c.Seed, strings.NewReader(b.String()))
+	if err != nil {
+		return failf("script does not load: %v", err)
+	}
+	maxSeen := map[string]float64{}
+	dr.AddFunction("cap", func(a []*variable.Value) (*variable.Value, error) {
+		if len(a) == 2 && a[0].String != nil && a[1].Number != nil {
+			maxSeen[*a[0].String] = math.Max(maxSeen[*a[0].String], *a[1].Number)
+		}
+		return variable.NewString(""), nil
+	})
+	h := &host{dr: dr, storer: newRecStorer()}
+	for range 40 {
+		if ev := h.step(0); ev.K == "err" {
+			return Verdict{Discard: "the library refuses arguments that are not whole (allowed)"}
+		} else if ev.K != "line" {
+			return failf("seed %q: unexpected element %s", c.Seed, ev)
+		}
+	}
+	for _, fn := range []string{"dice", "range"} {
+		var fitting []string
+		for name, mode := range c16Modes {
+			ok := true
+			for i, a := range args {
+				if maxSeen[fmt.Sprintf("%s%d", fn, i)] != mode(a) {
+					ok = false
+				}
+			}
+			if ok {
+				fitting = append(fitting, name)
+			}
+		}
+		if len(fitting) == 0 {
+			seen := make([]string, len(args))
+			for i, a := range args {
+				seen[i] = fmt.Sprintf("%v -> up to %v", a, maxSeen[fmt.Sprintf("%s%d", fn, i)])
+			}
+			what := "dice(x)"
+			if fn == "range" {
+				what = "random_range(1, x)"
+			}
+			return failf("seed %q: largest of 40 draws of %s for each x: %s - no single rule (truncation, floor, ceiling, nearest) explains all of them", c.Seed, what, strings.Join(seen, "; "))
+		}
+	}
+	return Verdict{NonTrivial: true}
+}
+
+var c09Rule = Register(Prop[c09RuleCase]{
+	ID: "C09", Name: "argument-rule", Run: runC09Rule,
+	Gen: func(t *rapid.T) c09RuleCase { return c09RuleCase{Seed: genSeedLegal(t)} },
+})
+
+func TestC09ArgumentRule(t *testing.T) { Check(t, c09Rule) }
+
+// ---------------------------------------------------------------------------------------
+// whatever ran before: scripts that agree in length and in a 32-bit checksum with a script loaded earlier in the process
+
+type c09CollisionCase struct {
+	Hash string `json:"hash"` // crc32-ieee, crc32-castagnoli, adler32, fnv32a, fnv32
+	Salt int    `json:"salt"`
+}
+
+func runC09Collision(c c09CollisionCase) Verdict {
+	sum := map[string]func([]byte) uint32{
+		"crc32-ieee":       crc32.ChecksumIEEE,
+		"crc32-castagnoli": func(b []byte) uint32 { return crc32.Checksum(b, crc32.MakeTable(crc32.Castagnoli)) },
+		"adler32":          adler32.Checksum,
+		"fnv32a":           func(b []byte) uint32 { h := fnv.New32a(); h.Write(b); return h.Sum32() },
+		"fnv32":            func(b []byte) uint32 { h := fnv.New32(); h.Write(b); return h.Sum32() },
+	}[c.Hash]
+	mk := func(which string, n int) string {
+		// two families of the same length: a comment holds the counter
+		// (the counter is spread over 13 characters by a mixing function: a plain counter only changes a few neighbouring bits,
+		// and a CRC, being linear, cannot collide on differences that small)
+		x := uint64(n)*0x9e3779b97f4a7c15 + uint64(c.Salt)*0xbf58476d1ce4e5b9 + uint64(which[0])
+		x ^= x >> 30
+		x *= 0xbf58476d1ce4e5b9
+		x ^= x >> 27
+		x *= 0x94d049bb133111eb
+		x ^= x >> 31
+		word := strconv.FormatUint(x, 36)
+		word = strings.Repeat("0", 13-len(word)) + word
+		return fmt.Sprintf("title: Start\n---\n// %s\nthis is script %s\n<<set $x to dice(%d)>>\nvalue {$x}\n===\n", word, which, map[string]int{"A": 6, "B": 9}[which])
+	}
+	seen := map[uint32]int{}
+	const family = 1 << 17
+	for n := 0; n < family; n++ {
+		seen[sum([]byte(mk("A", n)))] = n
+	}
+	a, b := -1, -1
+	for n := 0; n < family; n++ {
+		if m, ok := seen[sum([]byte(mk("B", n)))]; ok {
+			a, b = m, n
+			break
+		}
+	}
+	if a < 0 {
+		return Verdict{Discard: "no collision among 2^17 x 2^17 candidates"}
+	}
+	sa, sb := mk("A", a), mk("B", b)
+	if len(sa) != len(sb) || sum([]byte(sa)) != sum([]byte(sb)) || sa == sb {
+		return Verdict{Discard: "internal: not a collision"}
+	}
+	run := func(src string) (string, error) {
+		h, err := newHost([]string{src}, "abc", nil)
+		if err != nil {
+			return "", err
+		}
+		h.drive(nil, nil, 5, false)
+		return showTrace(h.trace), nil
+	}
+	first, err := run(sa)
+	if err != nil {
+		return failf("script does not load: %v", err)
+	}
+	second, err := run(sb)
+	if err != nil {
+		return failf("second script does not load: %v", err)
+	}
+	if !strings.Contains(first, "this is script A") || !strings.Contains(second, "this is script B") {
+		return failf("two scripts of the same length (%d bytes) and the same %s checksum (%08x), loaded one after the other in one process: the second runs as%s\nfirst:\n%s\nsecond:\n%s", len(sa), c.Hash, sum([]byte(sa)), "\n"+second, sa, sb)
+	}
+	return Verdict{NonTrivial: true, Classes: []string{"hash=" + c.Hash}}
+}
+
+var c09Collision = Register(Prop[c09CollisionCase]{ID: "C09", Name: "checksum-collisions", Run: runC09Collision})
+
+func TestC09ChecksumCollisions(t *testing.T) {
+	Enumerate(t, c09Collision, true, "for each of CRC-32 (IEEE, Castagnoli), Adler-32, FNV-1 and FNV-1a (32 bit): two different scripts of the same length and checksum, found by a birthday search, loaded and run one after the other in one process",
+		func(yield func(c09CollisionCase) bool) {
+			for _, h := range []string{"crc32-ieee", "crc32-castagnoli", "adler32", "fnv32a", "fnv32"} {
+				for salt := 0; salt < 2; salt++ {
+					if !yield(c09CollisionCase{Hash: h, Salt: salt}) {
+						return
+					}
+				}
+			}
+		})
 }
